@@ -486,6 +486,31 @@ theorem inv_afterConnect (cfg : Cfg) (s : St) (h : Inv s) (hp : s.pc = .connecti
         simp_all
       · constructor <;> simp_all [core, activePc, Pc.isDone]
 
+@[simp] theorem core_armConn (cfg : Cfg) (s : St) : core (armConn cfg s) = core s := by
+  unfold armConn; splits
+
+theorem inv_redirectStep (cfg : Cfg) (s : St) (h : Inv s) : Inv (redirectStep cfg s) := by
+  unfold redirectStep
+  simp only []
+  have h0 : Inv (resetHop s) := by
+    unfold resetHop
+    constructor <;> simp [core, activePc, Pc.isDone, List.mem_filter] <;> (try split) <;> simp_all
+  have hp0 : (resetHop s).pc = .idle := rfl
+  have hq0 : Who.R ∉ (resetHop s).poolQ := by simp [resetHop, List.mem_filter]
+  have h1 := inv_releaseWaiter cfg _ h0
+  have hp1 : (releaseWaiter cfg (resetHop s)).pc = .idle := by simp [hp0]
+  have hq1 : Who.R ∉ (releaseWaiter cfg (resetHop s)).poolQ := fun hm => hq0 (mem_releaseWaiter_poolQ _ _ _ hm)
+  generalize releaseWaiter cfg (resetHop s) = s1 at *
+  have h2 : Inv (armConn cfg s1) := Inv.of_core (core_armConn cfg s1) h1
+  have hc := core_armConn cfg s1
+  simp only [core, Core.mk.injEq] at hc
+  split
+  · obtain ⟨p1, p2, p3, p4, p5, p6, p7⟩ := h2
+    constructor <;> simp_all [core, activePc, Pc.isDone]
+  · apply inv_createConn _ _ h2
+    · left; rw [hc.2.1]; exact hp1
+    · rw [hc.2.2.2.2.2.1]; exact hq1
+
 theorem inv_resumeR (cfg : Cfg) (s : St) (h : Inv s) : Inv (resumeR cfg s) := by
   unfold resumeR
   split
@@ -530,6 +555,8 @@ theorem inv_resumeR (cfg : Cfg) (s : St) (h : Inv s) : Inv (resumeR cfg s) := by
           · exact Inv.of_core rfl h'
           · exact inv_afterConnect cfg _ (Inv.of_core rfl h') hp
         · rename_i hp
+          split
+          · exact inv_redirectStep cfg _ h'
           have ha : activePc ({ s with wake := none } : St).pc := Or.inl hp
           have := inv_afterHeaders cfg _ h' ha
           split
@@ -588,8 +615,8 @@ theorem inv_interimStep (cfg : Cfg) (s : St) (h : Inv s) : Inv (interimStep cfg 
       constructor <;> simp_all [core, activePc, Pc.isDone]
   · exact h1
 
-theorem inv_deliver (cfg : Cfg) (s : St) (p : Piece) (h : Inv s) : Inv (deliver cfg s p) := by
-  unfold deliver
+theorem inv_deliverCore (cfg : Cfg) (s : St) (p : Piece) (h : Inv s) : Inv (deliverCore cfg s p) := by
+  unfold deliverCore
   split
   · exact h
   · rename_i ho
@@ -645,6 +672,13 @@ theorem inv_deliver (cfg : Cfg) (s : St) (p : Piece) (h : Inv s) : Inv (deliver 
         split
         · exact inv_setWake _ _ h4
         · exact h4
+
+theorem inv_deliver (cfg : Cfg) (s : St) (p : Piece) (h : Inv s) : Inv (deliver cfg s p) := by
+  unfold deliver
+  simp only []
+  split
+  · exact Inv.of_core rfl (inv_deliverCore cfg s p h)
+  · exact inv_deliverCore cfg s p h
 
 theorem inv_flushQueued (cfg : Cfg) (n : Nat) (s : St) (h : Inv s) : Inv (flushQueued cfg n s) := by
   induction n generalizing s with
